@@ -642,6 +642,7 @@ if __name__ == "__main__":
     import logging
     logging.disable(logging.CRITICAL)
     import syscheck
+    import gentie
     sys_suites = syscheck.make_suites("C16", [("C16", 120, 3000)],
         "timed runs of the real launch() with FixedIntervalInteraction.with_sleep_adjustor (intervals 2-4 loop "
         "periods x time scales 1/2..4 x offsets x step durations) and scripted pause / resume / save commands "
@@ -656,7 +657,7 @@ if __name__ == "__main__":
                            "Pamiq.Adjust.starts_paced", "Pamiq.Adjust.pause_free",
                            "Pamiq.Adjust.pause_free_step", "Pamiq.Adjust.sleep_spec",
                            "Pamiq.Adjust.pause_in_sleep_shortens"],
-        suites=[suite_corpus, suite_exhaustive, suite_random, suite_malformed, *sys_suites],
+        suites=[gentie.suite_for("C16"), suite_corpus, suite_exhaustive, suite_random, suite_malformed, *sys_suites],
         search=search, replay=replay,
         assumptions=["IEEE-754 rounding is not modelled: all values dyadic, scales powers of two, so "
                      "every float operation of interval_adjustors.py / time.py is exact; equality",
